@@ -3,7 +3,7 @@
 cd /verif
 declare -A rel=( [C01]="C01 C02" [C02]="C02 C01" [C03]="C03 C08 C09" [C04]="C04 C07" [C05]="C05 C07 C01 C08" [C06]="C06 C07" [C07]="C07 C04" [C08]="C08 C03 C01" [C09]="C09 C03" [C10]="C10 C15 C12" [C11]="C11 C13" [C12]="C12 C10 C15" [C13]="C13 C14" [C14]="C14 C13" [C15]="C15 C10" [C16]="C16" [C17]="C17 C16" [C18]="C18 C04" [C19]="C19 C02" [C20]="C20" )
 for id in "$@"; do
-  for v in a b c d e f g h i j k l m n o p q r; do
+  for v in a b c d e f g h i j k l m n o p q r s t u v w x; do
     [ -f ${SEED_ROOT:-/tmp/wt}/$id-out/$v/patch.diff ] || continue
     [ -f /verif/seeded/$id-$v/meta.json ] && continue
     python3 tools/seedcheck.py $id $v ${rel[$id]}
